@@ -45,6 +45,27 @@ type udpPlan struct {
 	fromFam string
 }
 
+// clip renders the start of b for the event log; long runs of one byte are collapsed.
+func clip(b []byte, n int) string {
+	var out []byte
+	for i := 0; i < len(b) && len(out) < n; {
+		j := i
+		for j < len(b) && b[j] == b[i] {
+			j++
+		}
+		if j-i > 8 {
+			out = append(out, []byte(fmt.Sprintf("%c{x%d}", b[i], j-i))...)
+		} else {
+			out = append(out, b[i:j]...)
+		}
+		i = j
+	}
+	if len(out) >= n {
+		return string(out) + "..."
+	}
+	return string(out)
+}
+
 func opFamily(op string) string {
 	if i := strings.IndexByte(op, '.'); i > 0 {
 		return op[:i]
@@ -170,6 +191,7 @@ func (r *run) doTCP(p *tcpPlan) {
 	r.kinds["tcp."+p.sv.fam+"."+opFamily(p.op)] = true
 	s.Probe("c06.ep.tcp." + p.sv.fam)
 	s.Probe("c06.op." + p.op)
+	s.Logf("hostile tcp %s -> %s op=%s len=%d cuts=%d bytewise=%v end=%d data=%q", c.LocalAddr().String(), p.sv.sp.Name+"/"+p.sv.sp.Proto, p.op, len(p.data), len(p.cuts), p.bytewise, p.end, clip(p.data, 400))
 	c.SetWriteDeadline(time.Now().Add(3 * time.Minute))
 	c.SetReadDeadline(time.Now().Add(6 * time.Minute))
 	got := 0
@@ -331,6 +353,7 @@ func (r *run) doUDP(p *udpPlan) {
 	s.Probe("c06.ep.udp." + p.sv.fam)
 	s.Probe("c06.op." + p.op)
 	s.Fault("udp.hostile-datagram")
+	s.Logf("hostile udp -> %s op=%s len=%d spoof0=%v repeat=%d data=%q", p.sv.sp.Name+"/"+p.sv.sp.Proto, p.op, len(p.data), p.spoof0, p.repeat, clip(p.data, 120))
 	if p.spoof0 {
 		src := netip.AddrPortFrom(hostileIP4, 0)
 		if dst.Addr().Is6() {
@@ -390,7 +413,7 @@ func (r *run) hostilePhase() {
 	for i := 0; i < n && !s.Failed(); i++ {
 		var job func()
 		name := fmt.Sprintf("hostile%d", i)
-		switch k := g.ch(28); {
+		switch k := g.ch(29); {
 		case k < 11:
 			p := r.planTCP(g)
 			job = func() { r.doTCP(p) }
@@ -483,9 +506,8 @@ func (r *run) hostilePhase() {
 			if len(hs) == 0 {
 				break
 			}
-			sv := hs[g.ch(len(hs))]
-			nreq := 1 + g.ch(3)
-			job = func() { r.doOrigin(sv, nreq) }
+			p := r.planOrigin(g, hs[g.ch(len(hs))])
+			job = func() { r.doOrigin(p) }
 		}
 		if job == nil {
 			continue
@@ -516,9 +538,38 @@ func (r *run) hostilePhase() {
 	wg.Wait()
 }
 
+// originPlan is one client of the hostile HTTP origin: well-formed forward-proxy requests with
+// small or large header sections and bodies that are uploaded at once or slowly.
+type originPlan struct {
+	sv      *srv
+	nreq    int
+	longHdr int
+	method  string
+	body    int
+	chunked bool
+	pieces  int
+	gap     time.Duration
+	end     int // 0 FIN and drain, 1 close
+}
+
+func (r *run) planOrigin(g gen, sv *srv) *originPlan {
+	p := &originPlan{sv: sv, nreq: 1 + g.ch(3), method: "GET"}
+	p.longHdr = pick(g, []int{0, 0, 0, 0, 3000, 9000, 70000})
+	if g.ch(6) == 0 {
+		p.method = pick(g, []string{"POST", "PUT"})
+		p.body = pick(g, []int{1, 100, 5000, 40000, 200000})
+		p.chunked = g.ch(3) == 0
+		p.pieces = 1 + g.ch(4)
+		p.gap = pick(g, []time.Duration{0, time.Millisecond, time.Second, 10 * time.Second})
+	}
+	p.end = g.ch(2)
+	return p
+}
+
 // doOrigin sends plain forward-proxy requests for the hostile HTTP origin through an HTTP server.
-func (r *run) doOrigin(sv *srv, nreq int) {
+func (r *run) doOrigin(p *originPlan) {
 	s := r.s
+	sv := p.sv
 	ctx, cancel := context.WithTimeout(context.Background(), 30*time.Second)
 	c, err := r.e.Client.DialTCP(ctx, sv.sp.RelayAddr(false))
 	cancel()
@@ -534,17 +585,59 @@ func (r *run) doOrigin(sv *srv, nreq int) {
 		u := sv.sp.Users[0]
 		auth = "Proxy-Authorization: Basic " + b64(u.Name+":"+u.Password) + "\r\n"
 	}
-	c.SetDeadline(time.Now().Add(2 * time.Minute))
-	var b strings.Builder
-	for i := 0; i < nreq; i++ {
-		fmt.Fprintf(&b, "GET http://%s:%d/r%d HTTP/1.1\r\nHost: %s:%d\r\n%s\r\n", svc.TargetIP4, originPort, i, svc.TargetIP4, originPort, auth)
-	}
-	c.Write([]byte(b.String()))
-	buf := make([]byte, 16384)
-	for {
-		if _, err := c.Read(buf); err != nil {
+	c.SetDeadline(time.Now().Add(3 * time.Minute))
+	readerDone := false
+	s.Go("origin-client.reader", func() {
+		buf := make([]byte, 16384)
+		for {
+			if _, err := c.Read(buf); err != nil {
+				break
+			}
+		}
+		readerDone = true
+		s.Poke()
+	})
+	s.Logf("origin requests x%d through %s from %s: %s longHdr=%d body=%d chunked=%v pieces=%d gap=%v end=%d", p.nreq, sv.sp.Name, c.LocalAddr().String(), p.method, p.longHdr, p.body, p.chunked, p.pieces, p.gap.String(), p.end)
+	ok := true
+	for i := 0; i < p.nreq && ok; i++ {
+		var b strings.Builder
+		fmt.Fprintf(&b, "%s http://%s:%d/r%d HTTP/1.1\r\nHost: %s:%d\r\n%s", p.method, svc.TargetIP4, originPort, i, svc.TargetIP4, originPort, auth)
+		if p.longHdr > 0 {
+			fmt.Fprintf(&b, "X-Long: %s\r\n", strings.Repeat("v", p.longHdr))
+		}
+		var body []byte
+		if p.body > 0 {
+			body = make([]byte, p.body)
+			for k := range body {
+				body[k] = 'b'
+			}
+			if p.chunked {
+				b.WriteString("Transfer-Encoding: chunked\r\n")
+				body = []byte(fmt.Sprintf("%x\r\n%s\r\n0\r\n\r\n", len(body), body))
+			} else {
+				fmt.Fprintf(&b, "Content-Length: %d\r\n", p.body)
+			}
+		}
+		b.WriteString("\r\n")
+		if _, err := c.Write([]byte(b.String())); err != nil {
 			break
 		}
+		for k := 0; k < p.pieces && len(body) > 0; k++ {
+			n := len(body) / (p.pieces - k)
+			if p.gap > 0 {
+				s.Sleep(p.gap)
+			}
+			if _, err := c.Write(body[:n]); err != nil {
+				ok = false
+				break
+			}
+			body = body[n:]
+		}
+	}
+	if p.end == 0 {
+		c.CloseWrite()
+		s.WaitFor("origin client drains", 40*time.Second, func() bool { return readerDone })
 	}
 	c.Close()
+	s.WaitFor("origin client reader ends", time.Minute, func() bool { return readerDone })
 }
